@@ -171,6 +171,9 @@ func (h Handler) ServeHTTP(w http.ResponseWriter, r *http.Request) (int, error) 
 			}
 
 			if err != nil {
+				if errors.Is(err, httpserver.ErrMaxBytesExceeded) {
+					return http.StatusRequestEntityTooLarge, err
+				}
 				if err, ok := err.(net.Error); ok && err.Timeout() {
 					return http.StatusGatewayTimeout, err
 				} else if err != io.EOF {
